@@ -455,7 +455,30 @@ func histDocs() map[string]*sbom.Document {
 		return d
 	}
 	e := func(f string, t sbom.Edge_Type, to ...string) *sbom.Edge { return &sbom.Edge{From: f, Type: t, To: to} }
+	// every field of the node schema populated (by reflection: lists and maps with three entries, nested persons with
+	// e-mail, contacts, external references with hashes...), as packages and as a file: whatever a serializer reads, it
+	// reads it here - and whatever it writes back into its input shows in the next serialization
+	rich := func(id string) *sbom.Document {
+		d := mk(id, nil, []*sbom.Edge{e("r", sbom.Edge_contains, "p", "f"), e("p", sbom.Edge_dependsOn, "f")}, "r")
+		for i, nid := range []string{"r", "p", "f"} {
+			n := &sbom.Node{}
+			gen.Full(n, nid, 3)
+			n.Id = nid
+			n.Type = sbom.Node_PACKAGE
+			if i == 2 {
+				n.Type = sbom.Node_FILE
+			}
+			n.PrimaryPurpose = []sbom.Purpose{sbom.Purpose_LIBRARY}
+			n.Identifiers = map[int32]string{int32(sbom.SoftwareIdentifierType_PURL): "pkg:apk/w/" + nid + "@1", int32(sbom.SoftwareIdentifierType_CPE23): "cpe:2.3:a:" + nid}
+			n.Hashes = map[int32]string{int32(sbom.HashAlgorithm_SHA1): "1111", int32(sbom.HashAlgorithm_SHA256): "2222" + nid}
+			d.NodeList.Nodes = append(d.NodeList.Nodes, n)
+		}
+		d.Metadata.Authors = []*sbom.Person{{Name: "Au Thor", Email: "au@example.com", Contacts: []*sbom.Person{{Name: "c", Email: "c@example.com"}}}}
+		d.Metadata.Tools = []*sbom.Tool{{Name: "tool", Version: "1", Vendor: "v"}}
+		return d
+	}
 	return map[string]*sbom.Document{
+		"D11-rich":   rich("11"),
 		"D0-empty":   sbom.NewDocument(),
 		"D1-single":  mk("1", []string{"a"}, nil, "a"),
 		"D2-tree":    mk("2", []string{"a", "b", "c"}, []*sbom.Edge{e("a", sbom.Edge_contains, "b"), e("b", sbom.Edge_contains, "c")}, "a"),
